@@ -8,14 +8,15 @@ Open Scope Z_scope.
 (*  if check:
         bonds = self._bonds
         if not bonds: raise ValueError('Empty molecules not supported')
-        if max(bonds) > 4095: raise ValueError('Big molecules not supported')
+        if min(bonds) < 1 or max(bonds) > 4095: raise ValueError('Big molecules not supported')     (min: fix c3175c9)
         if any(len(x) > 15 for x in bonds.values()): raise ValueError('To many neighbors not supported')  *)
 Definition py_max (l : list Z) (d : Z) : Z := match l with [] => d | x :: r => fold_left Z.max r x end.
+Definition py_min (l : list Z) (d : Z) : Z := match l with [] => d | x :: r => fold_left Z.min r x end.
 
 Definition mol_pack_check (m : pmol) : pyres unit :=
   match pm_atoms m with
   | [] => Err ValueError
-  | _ => if 4095 <? py_max (map pa_n (pm_atoms m)) 0 then Err ValueError
+  | _ => if (py_min (map pa_n (pm_atoms m)) 1 <? 1) || (4095 <? py_max (map pa_n (pm_atoms m)) 0) then Err ValueError
          else if existsb (fun a => (15 <? length (pa_nbrs a))%nat) (pm_atoms m) then Err ValueError
          else Ok tt
   end.
